@@ -50,6 +50,8 @@ CopyClose(V, fs, nameClass) ==
   IF HitsNamed(V, nameClass) THEN [fs EXCEPT !.named = "new"] ELSE fs
 Unlink(fs) == [fs EXCEPT !.tmp = "none", !.pc = "done"]
 Fail(fs) == [fs EXCEPT !.pc = "failed"]
+(* after a failure the temporary file is closed and removed *)
+CleanUp(fs) == [fs EXCEPT !.tmp = "none", !.pc = "cleaned"]
 
 (* ---- the design as a next-state relation (used by MC_FS) ---- *)
 (* crossFs only matters when the temporary file is not in the destination directory *)
@@ -65,7 +67,37 @@ FsNextStates(V, fs, nameClass, crossFs, nchunks) ==
          \cup (IF fs.named = "new" THEN {Unlink(fs)} ELSE {})
     [] OTHER -> {}
 
+(* ---- trace checking: one observed event -> the action it must be ---- *)
+(* e = [ev, role, failed, samedir, snap: [named, others, ntmp]]; the result has ok=FALSE *)
+(* when the event is not an enabled step of the protocol or the snapshot disagrees        *)
+Has(e, f) == f \in DOMAIN e
+FsEvent(V, fs, e, nameClass) ==
+  LET bad == [fs EXCEPT !.ok = FALSE]
+      n == CASE e.ev = "mkstemp" -> IF fs.pc = "start" /\ e.samedir = V.tmpInDest THEN Mkstemp(V, fs) ELSE bad
+             [] e.ev = "write" /\ e.role = "tmp" ->
+                  IF fs.pc = "writing" THEN (IF e.failed THEN Fail(WriteTmp(fs)) ELSE WriteTmp(fs)) ELSE bad
+             [] e.ev = "close" /\ e.role = "tmp" -> IF fs.pc = "writing" THEN CloseTmp(fs)
+                                                    ELSE IF fs.pc = "failed" THEN [fs EXCEPT !.tmp = "closed"]
+                                                    ELSE bad
+             [] e.ev = "move" -> IF fs.pc = "closed" THEN (IF e.failed THEN Fail(fs) ELSE Rename(V, fs, nameClass)) ELSE bad
+             [] e.ev = "copy_begin" -> IF fs.pc = "closed" THEN CopyBegin(fs) ELSE bad
+             [] e.ev = "open" -> IF fs.pc = "copying" THEN CopyOpen(V, fs, nameClass) ELSE bad
+             [] e.ev = "write" /\ e.role # "tmp" ->
+                  IF fs.pc = "copying" THEN (IF e.failed THEN Fail(fs) ELSE fs) ELSE bad
+             [] e.ev = "close" /\ e.role # "tmp" ->
+                  IF fs.pc = "copying" THEN CopyClose(V, fs, nameClass)
+                  ELSE IF fs.pc = "failed" THEN fs ELSE bad
+             [] e.ev = "unlink" -> IF fs.pc = "copying" THEN Unlink(fs)
+                                   ELSE IF fs.pc = "failed" THEN [fs EXCEPT !.tmp = "none"]   \* clean-up
+                                   ELSE bad
+             [] OTHER -> bad
+  IN IF n.ok /\ n.named = e.snap.named /\ n.other = (e.snap.others # <<>>) THEN n ELSE [n EXCEPT !.ok = FALSE]
+RECURSIVE FsRun(_, _, _, _, _)
+FsRun(V, fs, events, i, nameClass) ==
+  IF i > Len(events) \/ ~fs.ok THEN fs ELSE FsRun(V, FsEvent(V, fs, events[i], nameClass), events, i + 1, nameClass)
+
 (* ---- the properties on model states ---- *)
 AtomicOK(fs) == fs.named # "partial"
-ExactOK(fs)  == fs.pc = "done" => (fs.named = "new" /\ ~fs.other /\ fs.tmp = "none")
+ExactOK(fs)  == /\ fs.pc = "done" => (fs.named = "new" /\ ~fs.other /\ fs.tmp = "none")
+                /\ fs.pc = "cleaned" => (~fs.other /\ fs.tmp = "none")
 =============================================================================
